@@ -16,6 +16,7 @@ def run(ctx, n_cases, prefixes, seed_offset=0, max_len=900, kinds=None):
         fs = c['fs']
         boundary = int([0, 1, 5, fs // 4, fs // 2][int(rng.integers(0, 5))])
         fk = [None, {'n_cycles': 3}, {'n_cycles': int(rng.choice([2, 4, 5]))}, {'n_seconds': float(rng.choice([2.0, 3.0])) / c['f_range'][0]}][(i // 2) % 4]
+        fk = gen.spell_unused_length(fk, i + 2 * (i % 2))
         if i % 6 == 5 and len(c['q']) and c['q'].max() > c['q'].min():
             # raw converter counts: the same waveform as unsigned 8-bit counts (0 .. 255) or as 16-bit counts reaching the negative rail
             x = (c['q'] - c['q'].min()) / float(c['q'].max() - c['q'].min())
